@@ -17,7 +17,9 @@ Families
 * `(slot (<key ids> <fresh values>) <pyout>)` — a single-slot keyed cache (`FloodFillSubsetState`,
   `HistogramLayerState`): requests with the key the code built and the value a freshly constructed object
   returns; `impl` = `slotRun`; `ok` = python returned the fresh value every time; `p` = the key separates
-  the inputs (hypothesis of `keyed_cache_sound`).
+  the inputs (hypothesis of `keyed_cache_sound`).  A value is an atom or a flat list of tokens and **exact
+  rationals** (`n` / `(q n d)`: every double as the rational it is), compared as `Rat`s — a stale answer that
+  differs from the fresh one in the last bit of one bin edge is a different value.
 * `(dict …)` — the same for a dictionary cache (`StateAttributeCacheHelper`).
 -/
 open GlueVerif GlueVerif.Sexp GlueVerif.SubsetEval GlueVerif.C05Cache
@@ -233,24 +235,58 @@ def stepHist (cs pyout : Sexp) : String :=
 
 /-! ### keyed caches -/
 
+/-- One item of a cached value: a token or an **exact rational** (python sends every double as the integer /
+`(q num den)` it is — `float.as_integer_ratio()` — so edges that differ by one ulp are different values here). -/
+inductive VAtom where
+  | tok (s : String)
+  | num (q : Rat)
+  deriving DecidableEq
+
+def vatomOf? : Sexp → Option VAtom
+  | .atom s => some (match s.toInt? with | some i => .num (i : Rat) | none => .tok s)
+  | .list [.atom "q", n, d] => do
+    let n ← n.toInt?
+    let d ← d.toNat?
+    if d == 0 then none else some (.num (mkRat n d))
+  | _ => none
+
+/-- A cached value: an atom (old-style canonical text, exception token) or a flat list of tokens / rationals. -/
+def valueOf? : Sexp → Option (List VAtom)
+  | .atom s => (vatomOf? (.atom s)).map ([·])
+  | .list xs => xs.mapM vatomOf?
+
+def vatomSexp : VAtom → Sexp
+  | .tok s => .atom s
+  | .num q => if q.den == 1 then ofInt q.num else .list [.atom "q", ofInt q.num, ofNat q.den]
+
+def valueSexp (isAtom : Bool) (v : List VAtom) : Sexp :=
+  match isAtom, v with
+  | true, [a] => vatomSexp a
+  | _, _ => .list (v.map vatomSexp)
+
 def stepSlot (dict : Bool) (keys vals pyout : Sexp) : String :=
-  match keys.toNats?, vals.toList? with
+  match keys.toNats?, (vals.toList?).bind (·.mapM valueOf?) with
   | some ks, some vs =>
     if ks.length != vs.length then bad "slot-len" else
-    let inputs := ks.zip (vs.map Sexp.toString)
-    let key : Nat × String → Nat := fun i => i.1
-    let f : Nat × String → String := fun i => i.2
+    let atomic := match vals.toList? with
+      | some l => l.all fun | .atom _ => true | _ => false
+      | none => true
+    let inputs := ks.zip vs
+    let key : Nat × List VAtom → Nat := fun i => i.1
+    let f : Nat × List VAtom → List VAtom := fun i => i.2
     let outs := if dict then dictRun key f [] inputs else slotRun key f none inputs
     let want := inputs.map f
-    let p := inputs.all fun i => inputs.all fun j => !(key i == key j) || f i == f j
-    let ok := match pyout.toList? with
-      | some po => decide (po.map Sexp.toString = want)
+    let p := inputs.all fun i => inputs.all fun j => !(key i == key j) || decide (f i = f j)
+    -- the Spec verdict: every answer python returned is, as a list of exact rationals, the one a freshly
+    -- constructed object returns for the *current* inputs
+    let ok := match (pyout.toList?).bind (·.mapM valueOf?) with
+      | some po => decide (po = want)
       | none => false
     let reused := (List.range ks.length).any fun i =>
       match ks[i]? with
       | some k => (ks.take i).any (· == k)
       | none => false
-    driverResult (.list (outs.map .atom)) ok (decide (outs = want)) p
+    driverResult (.list (outs.map (valueSexp atomic))) ok (decide (outs = want)) p
       ((if dict then "dict" else "slot") ++ (if reused then "-hit" else "-miss") ++ (if p then "" else "-collide"))
   | _, _ => bad "slot-case"
 
